@@ -1335,13 +1335,13 @@ theorem mayUse_full {g : Graph} (h : FullScope g) {n : Nat} (hn : n < g.nodes.le
 def exStGraph (scope : List String) : Graph :=
   { workers := [{ id := "net1", swarm := "localhost" }, { id := "net2", swarm := "localhost" }],
     nodes := [
-      { cls := 0, owner := some 0, name := "all.a.vms.vm1.nets.localhost.net1", pfx := "1a1", objs := ["vm1"],
+      { cls := 0, owner := some 0, name := "a.net1", pfx := "1a1", objs := ["vm1"],
         sets := [("vm1", "a")], scope := scope, setup := [(3, ["vm1"])] },
-      { cls := 0, owner := some 1, name := "all.a.vms.vm1.nets.localhost.net2", pfx := "1a1", objs := ["vm1"],
+      { cls := 0, owner := some 1, name := "a.net2", pfx := "1a1", objs := ["vm1"],
         sets := [("vm1", "a")], scope := scope, setup := [(3, ["vm1"])], cleanup := [(2, ["vm1"])] },
-      { cls := 1, owner := some 1, name := "all.b.vms.vm1.nets.localhost.net2", pfx := "2a1", objs := ["vm1"],
+      { cls := 1, owner := some 1, name := "b.net2", pfx := "2a1", objs := ["vm1"],
         gets := [("vm1", "a")], scope := scope, setup := [(1, ["vm1"])] },
-      { cls := 2, owner := none, name := "all.internal.stateless.noop", pfx := "1", flat := true, sharedRoot := true,
+      { cls := 2, owner := none, name := "noop", pfx := "1", flat := true, sharedRoot := true,
         cleanup := [(0, ["vm1"]), (1, ["vm1"])] }],
     root := 3 }
 
